@@ -1569,6 +1569,67 @@ func c11Find(c *Ctx) {
 				}
 			}
 		}
+		// routing as a whole: real refreshState vs the model's `route`, on the true journal names and on
+		// near misses (cut / extended paths, padded or signed fork numbers, foreign forks, unknown chunks):
+		// what the model routes nowhere must be recorded nowhere
+		isStage := map[string]bool{}
+		for _, fq := range stages {
+			isStage[fq] = true
+		}
+		var nodeEnc []string
+		for _, fq := range fqids {
+			fs := []string{}
+			if isStage[fq] {
+				fs = []string{"0"}
+			}
+			nodeEnc = append(nodeEnc, hx(fq)+":"+hxList(fs))
+		}
+		var jnames []string
+		for _, fq := range stages {
+			good := path.Base(w.RunFile(fq, 0, "chunk", 0)) + ".complete"
+			jnames = append(jnames, good, good[1:], good[2:], "X"+good, "."+good, top+"."+good, top+good,
+				strings.Replace(good, ".fork0", ".fork00", 1), strings.Replace(good, ".fork0", ".fork+0", 1),
+				strings.Replace(good, ".fork0", ".fork1", 1), strings.Replace(good, ".fork0", ".fork_0", 1),
+				strings.Replace(good, ".chnk0", ".chnk1", 1), strings.Replace(good, ".chnk0", "", 1),
+				strings.Replace(good, ".chnk0", ".chnk0.u0123456789", 1), strings.Replace(good, ".fork0", ".fork0.fork0", 1))
+		}
+		var rreqs [][]string
+		for _, jn := range jnames {
+			rreqs = append(rreqs, []string{"C11.route", hx(top), strings.Join(nodeEnc, ";"), hx(jn)})
+		}
+		for ji, rep := range c.Drv.AskBatch(rreqs) {
+			jn := jnames[ji]
+			if err := os.WriteFile(path.Join(w.JournalPath(), jn), []byte("x"), 0o644); err != nil {
+				continue
+			}
+			w.ClearSeen()
+			if err := w.Refresh(); err != nil {
+				r.violate(Violation{Kind: "property", Key: "C11:refresh-panic", What: "Node.refreshState panicked: " + err.Error(), Input: jn})
+				continue
+			}
+			seen := w.Seen()
+			var expect []core.VerifSeen
+			if f := strings.Fields(rep); len(f) == 6 && f[0] == "some" {
+				fk, _ := strconv.Atoi(f[2])
+				if f[4] == "-" { // a uniquified entry is ignored by these (never uniquified) jobs
+					if f[3] == "-" {
+						expect = []core.VerifSeen{{Fqid: unhx(f[1]), Fork: fk, Job: "fork", Chunk: -1, Name: unhx(f[5])}}
+					} else if ci, _ := strconv.Atoi(unhx(f[3])); ci == 0 { // one chunk per fork here
+						expect = []core.VerifSeen{{Fqid: unhx(f[1]), Fork: fk, Job: "chunk", Chunk: 0, Name: unhx(f[5])}}
+					}
+				}
+				r.hist("route_probes_routed")
+			} else {
+				r.hist("route_probes_nowhere")
+			}
+			r.count("route:"+top+":"+jn, true)
+			if fmt.Sprint(seen) != fmt.Sprint(expect) {
+				r.violate(Violation{Kind: "property", Key: "C11:route-model-mismatch",
+					What:  "Node.refreshState records a journal file differently from the model's route (a name no job produces must be recorded nowhere; a job's name for exactly that job)",
+					Input: map[string]interface{}{"pipestance": top, "nodes": fqids, "journal_file": jn},
+					Impl:  seen, Model: rep, Expect: expect, Broken: "route_roundtrip / route_exact / route_nowhere"})
+			}
+		}
 		os.RemoveAll(dir)
 	}
 }
@@ -1740,10 +1801,12 @@ func c11Resets(c *Ctx) {
 	fqA, fqB := "ID.ps.TOP.PIPE.ST", "ID.ps.TOP.PIPE.ST2"
 	for _, fq := range []string{fqA, fqB} {
 		for i := 0; i < 12; i++ {
-			if _, err := w.AddFork(fq, []c11Part{{Kind: "arr", Index: i, Len: 12, Static: true}}, 2); err != nil {
+			names, err := w.AddFork(fq, []c11Part{{Kind: "arr", Index: i, Len: 12, Static: true}}, 2)
+			if err != nil {
 				r.note("resets: AddFork: %v", err)
 				return
 			}
+			os.MkdirAll(names.Path, 0o755)
 		}
 	}
 	check := func(key, what string, hist string, expect []core.VerifSeen) {
